@@ -966,6 +966,10 @@ impl Log {
 			}
 		}
 		if let Some((id, _record_id, file)) = self.replay_queue.write().pop_front() {
+			if self.sync {
+				// The process that wrote this log may have stopped before syncing it.
+				try_io!(file.sync_data());
+			}
 			log::debug!(target: "parity-db", "Replay: Activated log reader {}", id);
 			*reading = Some(Reading { id, file: std::io::BufReader::new(file) });
 			Ok(Some(id))
